@@ -91,9 +91,20 @@ def declared_lengths(hs):
             if m is None:
                 res.append(None)
             else:
-                v = int(m.group(2).replace(b"_", b"").decode())
+                digits = m.group(2).replace(b"_", b"").lstrip(b"0") or b"0"
+                if len(digits) > 4000:
+                    res.append(None)      # beyond what the oracle itself can convert
+                    continue
+                v = int(digits.decode())
                 res.append(-v if m.group(1) == b"-" else v)
     return res
+
+
+def conflicting_lengths(hs):
+    """a block declaring two different content-lengths cannot satisfy "a declared
+    content-length equals the number of body bytes delivered": it must be rejected"""
+    decl = [d for d in declared_lengths(hs) if d is not None]
+    return len(set(decl)) > 1
 
 
 def oracle_function(op, out):
@@ -102,6 +113,9 @@ def oracle_function(op, out):
     if t[0] == "h3v.headers":
         hs = parse_headers(t[2])
         why = well_formed(t[1], hs)
+        if conflicting_lengths(hs) and out != "err H3Error(270)":
+            return (f"{t[1]} header list declaring content-lengths {declared_lengths(hs)} gave {out!r}, not H3_MESSAGE_ERROR",
+                    {"oracle": "content-length", "rule": "duplicate-differs"})
         if out.startswith("ok") and why is not None:
             return f"{t[1]} header list accepted although it breaks rule {why}", {"oracle": "well-formed", "rule": why}
         if why is not None and out != "err H3Error(270)":
@@ -158,6 +172,9 @@ def oracle_stream(case, outs):
             if why is not None:
                 problems.append((f"{kind} header block breaking rule {why} did not close the connection ({op!r} -> {out!r})",
                                  {"oracle": "well-formed", "rule": why}))
+            if conflicting_lengths(hs):
+                problems.append((f"{kind} header block declaring content-lengths {declared_lengths(hs)} did not close the connection ({op!r} -> {out!r})",
+                                 {"oracle": "content-length", "rule": "duplicate-differs"}))
         for m in EV_RE.finditer(head[3:]):
             typ, body_s = m.group(1), m.group(2)
             if typ == "H":
